@@ -151,6 +151,10 @@ func scribbleInts(xs ...*big.Int) {
 // historyCheapOps: properties whose operations are cheap enough for depth 3 with more than 12 operations.
 var historyCheapOps = map[string]bool{"C17": true, "C14": true, "C04": true, "C05": true, "C01": true, "C07": true, "C10": true, "C19": true, "C16": true}
 
+// historyCostlyOps: properties whose operations (or whose construction of fresh identities) are expensive; the capacity
+// pass stops at 65 other identities for them.
+var historyCostlyOps = map[string]bool{"C02": true, "C08": true, "C03": true, "C09": true, "C11": true, "C12": true, "C13": true, "C06": true, "C20": true, "C18": true, "C17": true}
+
 var historyOps = map[string]func(c *core.Ctx, salt int) []hOp{}
 
 // historyPass enumerates all histories of length <= depth over the property's operations.
@@ -278,6 +282,43 @@ func historyPass(c *core.Ctx, id string) {
 				} else {
 					rec2(ops, []int{i, j})
 				}
+			}
+		}
+		// capacity pass: a bounded cache is right until it starts to evict. For the first operations of the alphabet: the
+		// call with identities of salt 1, then the same call with 1..K other identities (K past the usual capacities: 1, 2,
+		// 8, 32, 64, 128, 256), then salt 1 again - every call compared with the reference value for its own identities.
+		ks := []int{1, 2, 8, 33, 65, 129, 260}
+		if historyCostlyOps[id] {
+			ks = []int{1, 2, 8, 33, 65}
+		}
+		nOps := len(canonical)
+		if nOps > 5 {
+			nOps = 5
+		}
+		if historyCostlyOps[id] && nOps > 3 {
+			nOps = 3
+		}
+		base := 100000 // salts of this pass do not collide with the salted pass
+		for i := 0; i < nOps; i++ {
+			if canonical[i].want == "*" {
+				continue
+			}
+			next := base + i*1000
+			for _, k := range ks {
+				first := mk(c, next)
+				if len(first) != len(canonical) {
+					return
+				}
+				rec2(first, []int{i})
+				for j := 1; j <= k; j++ {
+					other := mk(c, next+j)
+					if len(other) != len(canonical) {
+						return
+					}
+					rec2(other, []int{i})
+				}
+				rec2(mk(c, next), []int{i}) // the first identities again, after k others
+				next += k + 1
 			}
 		}
 	}()
